@@ -266,6 +266,42 @@ class Stream(Engine):
             return None
         if kind in ('tx', 'mtx'):
             ctx.probe('witness-form' if RW.tx_has_witness(spec) else ('all-empty-witness' if spec.get('wit') else 'legacy-form'))
+        # ---- re-entrancy: the library is entered again from code it called itself.  An application's own container
+        #      class serialises its members with .serialize() from inside its stream_serialize(); an application's
+        #      stream serialises something else from inside write().  The inner call is an ordinary call.
+        if len(want) < 200000 and (len(want) + len(kind)) % 3 == 0:
+            import bitcoin.core.serialize as SER
+
+            class Bundle(SER.Serializable):
+                def __init__(self, items):
+                    self.items = items
+
+                def stream_serialize(self, f):
+                    f.write(b'BNDL')
+                    for it in self.items:
+                        SER.BytesSerializer.stream_serialize(it.serialize(), f)
+                    f.write(b'END')
+
+            class Chatty:
+                def __init__(self, other):
+                    self.buf, self.other, self.inner = bytearray(), other, []
+
+                def write(self, data):
+                    if len(self.inner) < 3:
+                        self.inner.append(self.other.serialize())
+                    self.buf += data
+                    return len(data)
+            try:
+                got = Bundle([obj, build()]).serialize()
+                ch = Chatty(build())
+                obj.stream_serialize(ch)
+                ok = got == b'BNDL' + RW.varbytes(want) * 2 + b'END' and bytes(ch.buf) == want and all(x == want for x in ch.inner)
+            except Exception as e:
+                ok = False
+                got = repr(e).encode()
+            ctx.check(ok, 'C01.bytes', 'a %s serialised from inside another serialisation in progress on the same thread (an application container calling .serialize() '
+                      'on its members, a stream serialising from write()) does not give the wire format' % kind, field='re-entrant', **det)
+            ctx.fault('library-re-entered-from-a-callback')
         # ---- carried: round trip
         try:
             back = cls.deserialize(enc)
